@@ -300,6 +300,7 @@ def run(ctx, prog, res):
     r7.floor(3)
     rule_r8(prog, res)
     rule_r9(prog, res)
+    rule_r10(prog, res)
 
 
 def _or_roots(f, op, names, depth=0):
@@ -384,3 +385,35 @@ def rule_r8(prog, res):
             r8.check(kind in ("RangeInclusive", "RangeFrom", "RangeToInclusive"), {"membership": kind + "::contains"}, "C01.R8:contains:%s" % kind,
                      "wrapping_contains tests membership in a half-open %s: an end of the range is excluded" % kind, lib.where_of(f, t))
     r8.check(n >= 3, {"comparisons_and_membership_tests": n}, "C01.R8:FLOOR", "FLOOR: wrapping_contains has %d comparisons (expected the order test and two bounds)" % n, lib.where_of(f))
+
+
+def rule_r10(prog, res):
+    r10 = res.rule("C01.R10", "impossible days (`Apr 31`, `Feb 30`, `Feb 29` out of leap years) are moved forward when they start a dated range and backward when they end it, so the two can cross: wherever a start clamped forward and an end clamped backward are produced, they are produced together and compared with each other before they are handed to the pairing of bounds (a crossed pair must not be read as a range wrapping over the new year)")
+    fwd, bwd = [], []
+    for fid, fn in prog.fns.items():
+        if fn.crate != lib.OH:
+            continue
+        for bb, t in fn.calls():
+            shs = [flow.shape(fn, a, depth=4) for a in t["args"]]
+            if any(x.endswith("valid_ymd_after") and x.startswith("fn:") for x in shs):
+                fwd.append((fn, t))
+            if any(x.endswith("valid_ymd_before") and x.startswith("fn:") for x in shs):
+                bwd.append((fn, t))
+    if not fwd and not bwd:
+        r10.anchor_missing("clamping of impossible days (valid_ymd_after / valid_ymd_before handed to date_on_year)")
+        return
+    DATE = "chrono::naive::date::NaiveDate"
+    for kind, sites, others in (("forward", fwd, bwd), ("backward", bwd, fwd)):
+        for fn, t in sites:
+            # an ordering comparison of dates, one operand coming from a forward clamp and the other from a backward one
+            ok = False
+            for _, c in flow.comparisons(fn):
+                if c["op"] not in ("Lt", "Le", "Gt", "Ge"):
+                    continue
+                sa, sb = flow.shape(fn, c["a"], depth=6), flow.shape(fn, c["b"], depth=6)
+                for x, y in ((sa, sb), (sb, sa)):
+                    if "valid_ymd_after" in x and "valid_ymd_before" not in x and "valid_ymd_before" in y and "valid_ymd_after" not in y:
+                        ok = True
+            r10.check(ok, {"fn": fn.id.split("::")[-1], "clamp": kind, "compared_with_opposite_clamp": True}, "C01.R10:%s:%s" % (kind, fn.module),
+                      "%s clamps an impossible day %s and hands the result on without comparing it with the bound clamped the other way: for a range made of impossible days only (`Apr 31`, `Feb 30-31`, `Feb 29-30` out of leap years) the start lands after the end, and the pairing of bounds reads that as a range wrapping over the new year - open (nearly) all year" % (fn.id, kind), lib.where_of(fn, t))
+    r10.floor(2)
